@@ -68,6 +68,151 @@ prop("C13", ["prims.go", "c13.go"],
      text="Bounded symbolic model checking of the real SecureConfig.Check (including the real crypto/subtle.ConstantTimeCompare SSA) over every digest/checksum byte string within the length bound: the solver shows Check returns (true,nil) iff checksum == digest, and the documented sentinel errors otherwise. Right level because the property is a universal statement over byte strings whose rare points (prefix, extension, one flipped bit) are satisfying assignments, not samples.",
      note="Bound: digest <= 4 / checksum <= 5 bytes quick. Trusted: the hash function (a harness hash.Hash returns an arbitrary digest), os.Open/io.Copy contract models. " + ENGINE)
 
+# ------------------------------------------------------------------------------------------------ C10
+READLINE = "bufio.Reader.ReadLine is an exact chunking function of (line length L, terminator in {LF, CRLF, none at EOF}, buffer size B >= 16): full-buffer prefix chunks with isPrefix, final chunk stripped of its terminator, then (nil,false,io.EOF)"
+JSONM = "encoding/json.Unmarshal into map[string]interface{} is a nondeterministic class: syntax error; non-object; object whose @message/@level/@timestamp are each absent / string / non-string plus <= 1 further key; time.Parse is an uninterpreted predicate"
+SCANNER = "bufio.Scanner: yields each line without terminator; a line over 64 KiB makes Scan return false with ErrTooLong and nothing further is read by the scanner"
+prop("C10", ["prims.go", "c10.go"],
+     [run("stderr", "harnessC10", ["single", "chunked", "hclog-json", "text"],
+          quick={"bound": "one stderr line of symbolic length <= 3 buffer-fulls, buffer size symbolic in [16, 2^20], terminator LF/CRLF/none; JSON classes with one extra key; text prefix classes"}),
+      run("stdout", "harnessC10stdout", ["after-handshake"], files=["prims.go", "c10b.go"],
+          quick={"bound": "whole Client.Start with a valid handshake line followed by three stdout lines, the first of symbolic length <= 2^20 (either side of the 64 KiB Scanner limit)"}),
+      ],
+     [READLINE, JSONM, SCANNER, STR, "hclog.Logger is a recording harness implementation; hclog.LevelFromString runs from its real SSA"],
+     ["bufio.Reader.ReadLine", "encoding/json.Unmarshal", "time.Parse", "hclog.Logger"],
+     "more than one stderr line per run (quick); lines longer than 3 buffers; the bytes inside a chunk (opaque views)",
+     text="Bounded symbolic model checking of the real logStderr/parseJSON/flattenKVPairs over one stderr line of symbolic length and a symbolic log-buffer size (so shorter/equal/longer-than-buffer and CRLF/unterminated cases are solver-chosen), and over the JSON value classes of the @-fields: verbatim copy to the Stderr writer, level and message of the emitted record, and no panic.",
+     note="Bound: one line <= 3 buffers; buffer 16..2^20. Contracts: ReadLine chunking function, JSON value classes, Scanner 64 KiB rule. " + ENGINE)
+
+# ------------------------------------------------------------------------------------------------ C16
+GHOSTFS = "ghost file system and listener registry: net.Listen on a unix path adds the path; closing the rmListener removes it; os.MkdirTemp/CreateTemp create fresh unique names; os.Remove/RemoveAll delete"
+EXIT = "os.Exit(n) ends every goroutine of the modelled plugin process and records the status"
+prop("C16", ["prims.go", "c16.go"],
+     [run("serve", "harnessC16", ["refused", "serving"],
+          quick={"bound": "net/rpc plugin; configured cookie key empty or not; configured and environment cookie values arbitrary strings; PLUGIN_MULTIPLEX_GRPC unset / \"true\" / other; PLUGIN_CLIENT_CERT set or not"})],
+     [GHOSTFS, EXIT, STR, "crypto (generateCert, X509KeyPair, CertPool) opaque; os.Pipe/os.Stdout swap modelled; signal.Notify no-op"],
+     ["os.Getenv/Exit/Pipe", "net.Listen", "crypto/tls", "crypto/x509", "os/signal", "net/rpc server"],
+     "gRPC plugins and versioned sets in this run; the bytes go-plugin's logger writes to stderr",
+     text="Bounded symbolic model checking of the real Serve (cookie validation, protocolVersion, real serverListener_unix/rmListener over a ghost file system, AutoMTLS branch, RPCServer.Init, the printed line, the stdout swap) with the cookie value in the environment an arbitrary string: wrong/missing cookie or empty configured key/value => exit status 1, no listener, nothing on stdout; otherwise the listener exists before the first stdout write and that write is one line of exactly six fields, seven iff the mux variable is non-empty.",
+     note="Bound: net/rpc plugin, one cookie pair, mux variable in three classes. Listener/file system/process exit are models. " + ENGINE)
+
+# ------------------------------------------------------------------------------------------------ C17
+prop("C17", ["prims.go", "c17.go"],
+     [run("env", "harnessC17", ["automtls", "no-automtls"],
+          quick={"bound": "one arbitrary host environment entry K=V (K, V arbitrary strings - the solver may choose K = PLUGIN_CLIENT_CERT etc.); AutoMTLS x GRPCBrokerMultiplex x SkipHostEnv; RunnerFunc capturing cmd.Env and cmd.Stdin"})],
+     [PROC, BUFIO, CTX, STR, "effective value of a variable in the child = last duplicate in cmd.Env (os/exec dedup rule)", "generateCert opaque"],
+     ["os.Environ", "generateCert", "bufio", "context"],
+     "more than one ambient host variable; cmd.Env pre-set by the caller; launch by exec.Cmd",
+     text="Bounded symbolic model checking of the environment construction in the real Client.Start with the host's own environment a symbolic entry K=V: for every control variable the effective value in the child's environment is what the ClientConfig dictates (including 'absent'), stdin is the host's, and with SkipHostEnv nothing originates from the host environment.",
+     note="Bound: one ambient host variable with arbitrary name and value. " + ENGINE)
+
+# ------------------------------------------------------------------------------------------------ C19
+prop("C19", ["prims.go", "c17.go"],
+     [run("sequences", "harnessC19", ["sequence-done"],
+          quick={"bound": "call sequences of length 3 over {Start, Protocol, ReattachConfig, Kill-then-Start}; first stdout line garbage or valid; RunnerFunc counting launches"})],
+     [PROC, BUFIO, CTX, STR], ["as C01"],
+     "concurrent mixes (covered by C20's schedules only for Kill/Stop); sequences longer than the bound; exec.Cmd launch (a second StdoutPipe/Start on one exec.Cmd fails by the os/exec contract)",
+     text="Bounded symbolic model checking of the real Start/Client/Protocol/ReattachConfig/Kill over every call sequence within the length bound, with the outcome of the first start symbolic: launches (runner creations and starts) <= 1, no launch after Kill.",
+     note="Bound: sequences of length 3, custom runner. " + ENGINE)
+
+# ------------------------------------------------------------------------------------------------ C15 / C14
+prop("C15", ["prims.go", "c15.go"],
+     [run("reattach", "harnessC15", ["nothing-listening", "reattached", "test-mode"],
+          quick={"bound": "something listening or not x Reattach.Protocol in {\"\", netrpc, grpc} x Test flag x three allowed lists; ReattachFunc and pid-based reattach through the real cmdrunner.ReattachFunc / CmdAttachedRunner / pidWait (modelled ticker and signal-0 probe)"})],
+     [NET, CTX, "os.FindProcess/Signal(0)/Kill modelled by a ghost process table; time.NewTicker on the symbolic clock; net.Dial succeeds iff something listens at the address"],
+     ["net.Dial", "os.FindProcess", "os.Process.Signal/Kill", "time.Ticker"],
+     "reattach-after-death histories longer than one step; the plugin side of test mode (Serve with ServeTestConfig) in this run",
+     text="Bounded symbolic model checking of the real reattach / ReattachConfig / Kill with cmdrunner.ReattachFunc, CmdAttachedRunner and pidWait: nothing listening => ErrProcessNotFound; address, protocol (net/rpc default) and ReattachConfig are the running plugin's; Kill on a reattached client kills that process, and in test mode leaves it alive.",
+     note="Bound: single reattach step per path. Process table, dial and ticker are models. " + ENGINE)
+prop("C14", ["prims.go", "c15.go"],
+     [run("reattach-allowed", "harnessC15", ["reattached"],
+          quick={"bound": "reattach half of the matrix: Reattach.Protocol in {\"\", netrpc, grpc} x AllowedProtocols in three lists x Test flag"})],
+     [NET, CTX], ["as C15"],
+     "the launch half of the cross product (plugin Serve composed with host Start) and post-connect behaviour - not yet built",
+     text="Bounded symbolic model checking of the reattach half of the compatibility matrix on the real reattach(): whenever the client ends up connected, the protocol it will speak is in its AllowedProtocols list.",
+     note="Only the reattach half is decided so far; the launch matrix and dispense-by-name are future work recorded in DESIGN.md. " + ENGINE)
+
+# ------------------------------------------------------------------------------------------------ C12
+prop("C12", ["prims.go", "c12.go"],
+     [run("serve", "harnessC12serve", ["automtls", "plain"],
+          quick={"bound": "plugin side, net/rpc: PLUGIN_CLIENT_CERT set or unset; the tls.Config reaching tls.NewListener compared field by field with the reference"})],
+     ["crypto/tls enforcement is the trusted base: a tls endpoint configured with RequireAndVerifyClientCert and a one-certificate pool refuses plaintext, certificate-less and wrong-certificate peers", "generateCert, X509KeyPair, AppendCertsFromPEM opaque", GHOSTFS],
+     ["crypto/tls", "crypto/x509", "generateCert"],
+     "TLS enforcement itself (inside crypto/tls); host side and brokered connections in this run",
+     text="Bounded symbolic model checking of the TLS wiring in the real Serve: with a client certificate in the environment the configuration that reaches the listener is the reference (RequireAndVerifyClientCert, a pool holding exactly the host's certificate as ClientCAs and RootCAs, own certificate, TLS >= 1.2, no weakening field) and it wraps the plugin's listener; without it nothing is wrapped. What go-plugin contributes to the property is which tls.Config reaches which listener; enforcement is crypto/tls's.",
+     note="Thinnest claim of the set: wiring only; crypto/tls is trusted. Plugin side, net/rpc (host side and brokers: see DESIGN.md). " + ENGINE)
+
+# ------------------------------------------------------------------------------------------------ C18
+GRPCSEAM = "gRPC seam at the generated-code interfaces: Register*Server records the real implementation; grpc.Server.Serve accepts from its listener until stopped; Stop/GracefulStop close the listeners being served (documented); a unary call runs the registered real method in the peer process"
+YAMUX = "yamux model: a session is a pair of FIFO queues of streams; Open enqueues for the peer's Accept; Accept fails once the session is closed; in-order, loss-free (yamux's correctness is assumed)"
+prop("C18", ["prims.go", "c18.go"],
+     [run("lifecycle", "harnessC18", ["mux", "no-mux"],
+          quick={"bound": "plugin side, gRPC, multiplexing on/off, no brokered listeners: a whole life cycle Serve -> host connects -> controller Shutdown -> Serve returns, against the ghost file system"})],
+     [GHOSTFS, GRPCSEAM, YAMUX, EXIT],
+     ["net.Listen", "grpc.Server", "yamux", "os.Pipe", "os/signal"],
+     "brokered listeners, host-side socket directory, goroutine census (recorded as future work)",
+     text="Bounded symbolic model checking of a whole plugin life cycle on the real Serve / GRPCServer.Init/Serve/Stop / grpcControllerServer.Shutdown / GRPCServerMuxer / rmListener against a ghost file system: after a graceful shutdown no socket file created by go-plugin remains.",
+     note="Bound: plugin side, gRPC, mux on/off, no brokered listeners. " + ENGINE)
+
+# ------------------------------------------------------------------------------------------------ C04
+prop("C04", ["prims.go", "c04.go"],
+     [run("kill", "harnessC04", ["connected", "forced", "graceful", "kill-returned"],
+          quick={"bound": "gRPC, RunnerFunc launch, connected client, one Kill; plugin behaviour in {cooperative after symbolic delay d, answers but never exits, frozen}; canonical schedule"})],
+     [PROC, BUFIO, CTX, GRPCSEAM, "a unary gRPC call returns when answered, when its context is done, or with Unavailable when the connection is dead - and blocks otherwise"],
+     ["grpc.Dial", "generated gRPC clients", "bufio", "context", "process"],
+     "net/rpc, reattach and exec.Cmd launch; repeated/concurrent Kill and CleanupClients (future work)",
+     text="Bounded symbolic model checking of the real chain NewClient -> Client() -> Start -> newGRPCClient -> Kill -> GRPCClient.Close over the plugin's shutdown behaviour with a symbolic delay: Kill returns, within grace period + shutdown-request duration on the symbolic clock; a plugin that exits inside the grace period is not force-killed, one that does not is.",
+     note="Bound: gRPC, custom runner, one Kill, three behaviour classes. " + ENGINE)
+
+# ------------------------------------------------------------------------------------------------ C09
+prop("C09", ["prims.go", "c09a.go"],
+     [run("mux", "harnessC09a", ["accept-matched", "accept-timed-out", "probe-done"],
+          quick={"bound": "MuxBroker: <= 2 inbound dials with IDs x1, x2 NOT assumed distinct at symbolic instants t1 <= t2, <= 1 local Accept(a) at tA, then a fresh matched pair after every timer expired; canonical schedule, symbolic clock (ties explored)"})],
+     [YAMUX, "encoding/binary.Read/Write of a uint32 moves one message on a stream"],
+     ["yamux.Session/Stream", "encoding/binary"],
+     "the gRPC broker half; schedules other than canonical; histories longer than the bound; Close ending the goroutines",
+     text="Bounded symbolic model checking of the real MuxBroker.Run/Accept/getStream/timeoutWait under cooperative goroutines and a symbolic clock: IDs, arrival instants and the accept instant are solver-chosen (duplicate IDs and the expiry-instant tie are satisfying assignments); every unmatched call returns within 5 s, and after the history a fresh pair still succeeds (no goroutine blocked for ever).",
+     note="Bound: history of <= 2 inbound dials + <= 1 accept; canonical schedule. " + ENGINE)
+
+# ------------------------------------------------------------------------------------------------ C06 / C07 / C08 / C11 / C20
+NETRPC = "net/rpc model: Call(\"Svc.Method\") runs the real registered receiver method in a goroutine of the peer; fails when the connection is closed"
+prop("C06", ["prims.go", "c06.go"],
+     [run("routing", "harnessC06", ["dispensed", "routed"], dpor=True,
+          quick={"max_reversals": 1, "bound": "two Dispense calls + two symbolic distinct IDs accepted on the host and dialled from the plugin within a symbolic gap < 5 s in either order"})],
+     [YAMUX, NETRPC], ["yamux", "net/rpc", "encoding/binary"],
+     "byte transport on a stream (yamux contract); 3 IDs; more than 1 reversal in quick",
+     text="Bounded symbolic model checking of the real MuxBroker (Accept/Dial/Run/NextId/AcceptAndServe), dispenseServer.Dispense, RPCClient.Dispense and serve over paired-session yamux and net/rpc models, all schedules up to the reversal bound: Accept(n) returns the far end of the stream Dial(n) returned, and each Dispense reaches the server object created for that dispense.",
+     note="Bound: 2 IDs, 2 dispenses, DPOR with 1 reversal. " + ENGINE)
+prop("C07", ["prims.go", "c07.go"],
+     [run("routing", "harnessC07", ["accept-first", "dial-first", "routed"], dpor=True,
+          quick={"max_reversals": 1, "bound": "ID a accepted on the plugin and dialled from the host, ID b the other way round; symbolic distinct IDs; symbolic gap < 5 s either order"})],
+     [GRPCSEAM, GHOSTFS, "broker stream = FIFO pair; Send copies the message"], ["grpc", "net.Listen", "generated broker stream"],
+     "TLS and tagging address translators; 3 IDs; the transport under gRPC",
+     text="Bounded symbolic model checking of the real GRPCBroker (non-mux Accept, DialWithOptions, Run, getClientStream, timeoutWait), the real gRPCBrokerServer/gRPCBrokerClientImpl pumps and dialGRPCConn: the connection dialled for ID n reaches the listener created by Accept(n), in both directions and either order.",
+     note="Bound: 2 IDs, DPOR with 1 reversal. " + ENGINE)
+prop("C08", ["prims.go", "c08.go"],
+     [run("mux", "harnessC08", ["established"], dpor=True,
+          quick={"max_reversals": 2, "bound": "one establishment, plugin accepts / host dials, accept-first and dial-first, all schedules with <= 2 reversals"},
+          thorough={"max_reversals": 3, "bound": "as quick with <= 3 reversals"})],
+     [YAMUX, "the two brokers talk through an in-model FIFO streamer pair"], ["yamux", "broker stream"],
+     "two sequential establishments; traffic on earlier connections; > 2 reversals",
+     text="Bounded symbolic model checking of the real mux branch of GRPCBroker (Accept, listenForKnocks, knock, muxDial, Run) with both real grpcmux muxers and blocked listeners over a yamux model, all schedules of the goroutines of one establishment up to the reversal bound: the stream dialled for n is delivered by the listener returned by Accept(n), the dial succeeds, and the main accept loop and session keep working.",
+     note="Bound: one establishment; DPOR 2 reversals quick, 3 thorough. " + ENGINE)
+prop("C11", ["prims.go", "c11.go"],
+     [run("grpc-stdio", "harnessC11", ["delivered"], dpor=True,
+          quick={"max_reversals": 2, "race": True, "bound": "gRPC: two stdout chunks and one stderr chunk, each an opaque byte view of symbolic length 1..1024; all schedules with <= 2 reversals; happens-before race detection on the chunk buffer"})],
+     ["bufio.Reader.Read returns 1..len(p) bytes (a view over the source's next bytes)", "stream model whose Send reads the message bytes at call time (marshalling)"], ["bufio.Reader.Read", "generated stdio stream"],
+     "net/rpc stream wiring; > 3 chunks; io.Copy and the transports",
+     text="Bounded symbolic model checking of the real newGRPCStdioServer, both copyChan goroutines (writing into the real [1024]byte array), StreamStdio and grpcStdioClient.Run: every chunk arrives once, unchanged, in order, on the right writer; plus happens-before race detection on the buffer (which is what exposes an aliased/hoisted buffer).",
+     note="Bound: 2+1 chunks of symbolic length <= 1024; DPOR 2 reversals. " + ENGINE)
+prop("C20", ["prims.go", "c20.go"],
+     [run("stop-stop", "harnessC20stop", ["both-stopped"], dpor=True, quick={"max_reversals": 2, "race": True, "bound": "two goroutines calling GRPCServer.Stop"}),
+      run("close-close", "harnessC20close", ["both-closed"], dpor=True, quick={"max_reversals": 2, "race": True, "bound": "two goroutines calling GRPCBroker.Close (sync.Once control)"})],
+     [GRPCSEAM], ["grpc.Server"],
+     "races inside gRPC/yamux; schedules needing more reversals; Client methods / Dispense / broker Accept-Dial mixes (future work)",
+     text="Bounded exploration of all schedules (DPOR) of two goroutines on the real GRPCServer.Stop and GRPCBroker.Close with vector-clock happens-before race detection restricted to accesses made from go-plugin source lines.",
+     note="Bound: 2 goroutines, 2 reversals. " + ENGINE)
+
 PENDING = "check not yet registered in this build session (harness exists in prototype form and is being ported); will be claimed once it has run clean on the unchanged tree"
 for i in range(1, 21):
     id = "C%02d" % i
